@@ -28,7 +28,14 @@ def run(ctx):
         "normal forms with anchor + TRIGGER + k*DURATION).")
     ctx.assume("date/datetime arithmetic is modelled symbolically: values of "
                "date vs date-time addition and DST normalisation are not decided")
-    _count(ctx)
+    try:
+        _count(ctx)
+    except AnalysisError as e:
+        # the symbolic trip count needs `for i in range(...)`; any other way of
+        # writing the repeats is still decided, for REPEAT in 0..2 (3), by the
+        # abstract evaluation below (ANCHOR / TRIGGERS)
+        ctx.note(f"C14/COUNT not applicable to this shape ({e}); repeats are decided by "
+                 f"C14/ANCHOR and C14/TRIGGERS for REPEAT <= {3 if ctx.thorough else 2}")
     _anchor_component(ctx)
     _anchor_manual(ctx)
     _triggers(ctx)
